@@ -377,10 +377,21 @@ func (ex *Exec) havocTarget(st *State, t target) {
 	case 1:
 		nv := ex.freshConst(st, "hv."+t.key, elemSortOf(t.sort))
 		st.setComp(t.key, ex.define(st, t.key, mkStore(comp, t.idx[0], nv)))
+		if strings.HasPrefix(t.key, "MV:") {
+			dk := "MD:" + strings.TrimPrefix(t.key, "MV:")
+			ks := keySortOf(nv.Sort)
+			dom := st.comp(dk, arraySort(SInt, arraySort(ks, SBool)))
+			st.emit(fmt.Sprintf("(assert (forall ((kz %s)) (! (=> (not (select (select %s %s) kz)) (= (select %s kz) %s)) :pattern ((select %s kz)))))", ks, dom.S, t.idx[0].S, nv.S, zeroOfSort(elemSortOf(nv.Sort)).S, nv.S))
+		}
 	case 2:
 		row := mkSelect(comp, t.idx[0])
 		nv := ex.freshConst(st, "hv."+t.key, elemSortOf(row.Sort))
 		st.setComp(t.key, ex.define(st, t.key, mkStore(comp, t.idx[0], mkStore(row, t.idx[1], nv))))
+		if strings.HasPrefix(t.key, "MV:") {
+			dk := "MD:" + strings.TrimPrefix(t.key, "MV:")
+			dom := st.comp(dk, arraySort(SInt, arraySort(keySortOf(row.Sort), SBool)))
+			st.assume(mkImp(mkNot(mkSelect(mkSelect(dom, t.idx[0]), t.idx[1])), mkEq(nv, zeroOfSort(nv.Sort))))
+		}
 	default:
 		ex.fail("havoc target with %d indices", len(t.idx))
 	}
@@ -536,7 +547,7 @@ func (ex *Exec) resolveTarget(env *SpecEnv, e Expr, src string) []target {
 		switch t := x.Typ.Underlying().(type) {
 		case *types.Slice:
 			so := sortOfType(t.Elem())
-			return []target{{key: elemKey(t.Elem()), sort: arraySort(SInt, arraySort(SInt, so)), idx: []Term{sArr(x.T), app(SInt, "+", sOff(x.T), i.T)}}}
+			return []target{{key: elemKey(t.Elem()), sort: arraySort(SInt, arraySort(SInt, so)), idx: []Term{sArr(x.T), addT(sOff(x.T), i.T)}}}
 		case *types.Map:
 			return ex.mapTargets(t, []Term{x.T, i.T})
 		}
@@ -552,8 +563,11 @@ func (ex *Exec) resolveTarget(env *SpecEnv, e Expr, src string) []target {
 }
 
 func (ex *Exec) mapTargets(mt *types.Map, idx []Term) []target {
+	if len(idx) > 1 {
+		idx = []Term{idx[0], mapKeyTerm(idx[1])}
+	}
 	dk, vk, ck := mapKeys(mt)
-	ks := sortOfType(mt.Key())
+	ks := mapKeySort(mt)
 	out := []target{{key: dk, sort: arraySort(SInt, arraySort(ks, SBool)), idx: idx}}
 	if vs := sortOfType(mt.Elem()); vs != SAgg {
 		out = append(out, target{key: vk, sort: arraySort(SInt, arraySort(ks, vs)), idx: idx})
@@ -747,7 +761,7 @@ func (ex *Exec) appendOp(st *State, s, t *Val, sT, tT types.Type) *Val {
 	} else {
 		tlen = sLen(t.T)
 		trow := mkSelect(comp, sArr(t.T))
-		telem = func(j Term) Term { return mkSelect(trow, app(SInt, "+", sOff(t.T), j)) }
+		telem = func(j Term) Term { return mkSelect(trow, addT(sOff(t.T), j)) }
 	}
 	slen, soff, scap, sarr := sLen(s.T), sOff(s.T), sCap(s.T), sArr(s.T)
 	newLen := ex.define(st, "alen", app(SInt, "+", slen, tlen))
@@ -963,7 +977,7 @@ func (ex *Exec) rangeStart(st *State, in *ssa.Range) *Val {
 		ex.fail("range over %s is not modelled", in.X.Type())
 	}
 	dk, vk, ck := mapKeys(mt)
-	ks := sortOfType(mt.Key())
+	ks := mapKeySort(mt)
 	dom := mkSelect(st.comp(dk, arraySort(SInt, arraySort(ks, SBool))), x.T)
 	card := mkSelect(st.comp(ck, arraySort(SInt, SInt)), x.T)
 	it := &MapIter{Map: x.T, MTyp: mt}
@@ -997,12 +1011,18 @@ func (ex *Exec) rangeNext(st *State, in *ssa.Next) bool {
 	pos := st.cells[itv.Addr.Cell].T
 	ok := ex.define(st, "more", app(SBool, "<", pos, it.Card))
 	key := ex.define(st, "rkey", mkSelect(it.Inv, pos))
+	if sortOfType(it.MTyp.Key()) == SString {
+		ik := key
+		key = ex.define(st, "rkeystr", Term{"(ks " + ik.S + ")", SString})
+		// every key in the domain is the image of a string
+		st.assume(mkImp(ok, mkEq(Term{"(sk " + key.S + ")", SInt}, ik)))
+	}
 	tup := in.Type().(*types.Tuple)
 	res := &Val{Typ: in.Type()}
 	res.Tup = append(res.Tup, scalar(ok, types.Typ[types.Bool]))
 	res.Tup = append(res.Tup, scalar(key, it.MTyp.Key()))
 	if it.Vals.S != "" {
-		res.Tup = append(res.Tup, scalar(ex.define(st, "rval", mkSelect(it.Vals, key)), it.MTyp.Elem()))
+		res.Tup = append(res.Tup, scalar(ex.define(st, "rval", mkSelect(it.Vals, mapKeyTerm(key))), it.MTyp.Elem()))
 	} else {
 		res.Tup = append(res.Tup, &Val{Typ: tup.At(2).Type()})
 	}
